@@ -383,7 +383,7 @@ def run_cli(case: dict):
             except OSError:
                 continue
             try:
-                raw.settimeout(3)
+                raw.settimeout(20)
                 conn = sctx.wrap_socket(raw, server_side=True)
                 try:
                     d = b""
